@@ -212,52 +212,60 @@ def execute(binary, scs, tag):
 
 def design_and_generate(fam, tier, notes):
     """TLC on the spec: exhaustive check of the properties for the family's configurations
-    (Dev = {}), generation of one schedule per transition, counterexamples for the deviations."""
+    (Dev = {}), generation of one schedule per transition, counterexamples for the deviations.
+    The TLC runs are independent and run in parallel."""
     F = FAMILIES[fam]
     seed = vlib.seed()
-    states = trans = 0
-    scheds = []      # (cfg, hist, kind)
+    jobs = []
     for cfgname, q, t in F["cfgs"]:
         text = read_cfg(cfgname)
-        conf = cfg_consts(text)
-        res = vlib.tlc("MC_ClientLib", "mc.cfg", workers=8, files={"mc.cfg": patch_cfg(text, maxev=q if tier == "quick" else t)},
-                       timeout=1100, javaopts="-Xmx8g")
-        if not vlib.tlc_ok(res):
-            bad = vlib.tlc_printed(res, "BAD:")
-            raise vlib.Inconclusive("TLC does not prove the properties on the specification %s (spec-level counterexample, "
-                                    "not a verdict about the code): %s\n%s" % (cfgname, bad[:1], res["out"][-1500:]))
-        states += res["distinct"]
-        trans += res["generated"]
-        hs = parse_hists(res)
-        notes.append("%s: %d distinct states, %d transitions, depth %d, %d schedules" % (cfgname, res["distinct"], res["generated"], res["depth"], len(hs)))
-        for h in hs:
-            scheds.append((conf, h, "transition"))
+        jobs.append(("mc", cfgname, patch_cfg(text, maxev=q if tier == "quick" else t), dict(workers=6, timeout=1100, javaopts="-Xmx6g")))
         if tier == "thorough" and F.get("sim"):
             num, depth = F["sim"]
-            res = vlib.tlc("MC_ClientLib", "mc.cfg", workers=1, files={"mc.cfg": patch_cfg(text, maxev=depth)},
-                           timeout=600, simulate="num=%d" % num, depth=depth + 2, extra=("-seed", str(seed)))
-            hs = maximal(parse_hists(res))
-            notes.append("%s: %d random walks (depth <= %d, seed %d)" % (cfgname, len(hs), depth, seed))
-            for h in hs:
-                scheds.append((conf, h, "walk"))
-    devhits = {}
+            jobs.append(("sim", cfgname, patch_cfg(text, maxev=depth),
+                         dict(workers=1, timeout=600, simulate="num=%d" % num, depth=depth + 2, extra=("-seed", str(seed)))))
     for d in F.get("devs", []):
         cfgname = F.get("devcfg", F["cfgs"][0][0])
-        text = read_cfg(cfgname)
-        conf = cfg_consts(text)
         q = [c for c in F["cfgs"] if c[0] == cfgname][0][1]
-        res = vlib.tlc("MC_ClientLib", "mc.cfg", workers=4, files={"mc.cfg": patch_cfg(text, maxev=q + 1, dev=[d])},
-                       timeout=600, extra=("-continue",))
-        bad = parse_hists(res, "BAD:")
-        if not bad:
-            raise vlib.Inconclusive("deviation %s yields no counterexample in %s (vacuous deviation)" % (d, cfgname))
-        sigs = {}
-        for b in bad:
-            sigs.setdefault(b["sig"], b["hist"])   # BFS: the first one per signature is a shortest one
-        devhits[d] = sorted(sigs)
-        for sg, h in sigs.items():
-            scheds.append((conf, h, "dev:%s:%s" % (d, sg)))
-        notes.append("deviation %s: TLC finds %s" % (d, ", ".join(sorted(sigs))))
+        jobs.append(("dev:" + d, cfgname, patch_cfg(read_cfg(cfgname), maxev=q + 1, dev=[d]),
+                     dict(workers=2, timeout=600, extra=("-continue",), javaopts="-Xmx3g")))
+
+    def go(job):
+        kind, cfgname, text, kw = job
+        return vlib.tlc("MC_ClientLib", "mc.cfg", files={"mc.cfg": text}, **kw)
+
+    results = vlib.pmap(go, jobs, n=len(jobs))
+    states = trans = 0
+    scheds, devhits = [], {}
+    for (kind, cfgname, text, kw), res in zip(jobs, results):
+        conf = cfg_consts(text)
+        if kind == "mc":
+            if not vlib.tlc_ok(res):
+                bad = vlib.tlc_printed(res, "BAD:")
+                raise vlib.Inconclusive("TLC does not prove the properties on the specification %s (spec-level counterexample, "
+                                        "not a verdict about the code): %s\n%s" % (cfgname, bad[:1], res["out"][-1500:]))
+            states += res["distinct"]
+            trans += res["generated"]
+            hs = parse_hists(res)
+            notes.append("%s: %d distinct states, %d transitions, depth %d, %d schedules" % (cfgname, res["distinct"], res["generated"], res["depth"], len(hs)))
+            scheds += [(conf, h, "transition") for h in hs]
+        elif kind == "sim":
+            hs = maximal(parse_hists(res))
+            if not hs:
+                raise vlib.Inconclusive("TLC simulation produced no walk for %s:\n%s" % (cfgname, res["out"][-1500:]))
+            notes.append("%s: %d random walks (depth <= %d, seed %d)" % (cfgname, len(hs), F["sim"][1], seed))
+            scheds += [(conf, h, "walk") for h in hs]
+        else:
+            d = kind[4:]
+            bad = parse_hists(res, "BAD:")
+            if not bad:
+                raise vlib.Inconclusive("deviation %s yields no counterexample in %s (vacuous deviation):\n%s" % (d, cfgname, res["out"][-1500:]))
+            sigs = {}
+            for b in bad:
+                sigs.setdefault(b["sig"], b["hist"])   # BFS: the first one per signature is a shortest one
+            devhits[d] = sorted(sigs)
+            scheds += [(conf, h, "dev:%s:%s" % (d, sg)) for sg, h in sigs.items()]
+            notes.append("deviation %s: TLC finds %s" % (d, ", ".join(sorted(sigs))))
     return states, trans, scheds, devhits
 
 
